@@ -112,6 +112,13 @@ class FlowReader:
         base, name = nm
         if name == "parse_args" and base == "req_param_parser":
             return "SExtraParams"
+        if base == "RequirementsFile" and name == "from_file":
+            # private/compiler.py loads its inputs directly: requirements first, constraints second
+            k = self.counts.get("from_file", 0)
+            self.counts["from_file"] = k + 1
+            if k >= 2:
+                raise self.err("more RequirementsFile.from_file calls than the model knows")
+            return ["SInputs", "SConstraints"][k]
         if base is None and name in STAGE_CALLS:
             k = self.counts.get(name, 0)
             self.counts[name] = k + 1
@@ -178,12 +185,21 @@ class FlowReader:
         # nothing before the directory is made may delete
         for s in body[:idx + 1]:
             self.no_deleters([s], allowed=None)
+        # stage calls that run BEFORE the directory is made (a failure there leaves nothing behind):
+        # they must not sit inside a try (their failure is then an uncaught exception)
+        pre: List[str] = []
+        for s in body[:idx]:
+            for n in ast.walk(s):
+                if isinstance(n, ast.Try) and self.stages_in_peek(n):
+                    raise self.err("stage call inside a try before the wheel directory is made")
+            pre += [x for x in self.stages_in([s]) if x not in pre]
         # 2. the statements after it
         items: List[str] = []
         guards: List[Tuple[bool, bool]] = []   # (polarity positive?, ) of recognised finally guards
         del_user: Optional[bool] = None
         del_tmp: Optional[bool] = None
-        seen_stages: List[str] = []
+        seen_stages: List[str] = list(pre)
+        fin_seen = False
         for s in body[idx + 1:]:
             if isinstance(s, ast.Try):
                 if s.orelse:
@@ -195,6 +211,7 @@ class FlowReader:
                 if s.finalbody:
                     pol = self.finally_guard(s.finalbody, flag, dirvar)
                     fin = True
+                    fin_seen = True
                     du, dt = (user_val, tmp_val) if pol else (not user_val, not tmp_val)
                     if del_user is not None and (du, dt) != (del_user, del_tmp):
                         raise self.err("two finally blocks with different guards")
@@ -204,6 +221,10 @@ class FlowReader:
                 items.append("Try [{}] [{}] {}".format("; ".join(steps), "; ".join(hs), "true" if fin else "false"))
                 seen_stages += st
             else:
+                if not fin_seen and not self.stages_in_peek(s) and any(isinstance(n, ast.Call) for n in ast.walk(s)):
+                    # between mkdtemp and the try whose finally removes the directory every statement
+                    # must be a modelled stage or unable to raise
+                    raise self.err(f"unmodelled call between the creation of the wheel directory and the try/finally (line {s.lineno})")
                 only_user = False
                 inner = [s]
                 if isinstance(s, ast.If) and self.mentions(s.test, flag):
@@ -237,7 +258,7 @@ class FlowReader:
         if del_user is None:
             # no finally removes the directory at all: the flag never takes effect
             del_user, del_tmp = False, False
-        return {"items": items, "del_user": del_user, "del_tmp": del_tmp, "flag": flag,
+        return {"pre": pre, "items": items, "del_user": del_user, "del_tmp": del_tmp, "flag": flag,
                 "user_val": user_val, "tmp_val": tmp_val}
 
     def read_handlers(self, t: ast.Try) -> List[str]:
@@ -285,7 +306,7 @@ class FlowReader:
         for n in ast.walk(node):
             if isinstance(n, ast.Call):
                 nm = _call_name(n)
-                if nm and ((nm[0] is None and nm[1] in STAGE_CALLS) or nm == ("req_param_parser", "parse_args")):
+                if nm and ((nm[0] is None and nm[1] in STAGE_CALLS) or nm in (("req_param_parser", "parse_args"), ("RequirementsFile", "from_file"))):
                     return True
         return False
 
@@ -510,7 +531,7 @@ def gen_c15_consts() -> str:
     out += "From Coq Require Import List String NArith Bool.\nFrom RC Require Import model.CliTypesC15.\nImport ListNotations.\nOpen Scope string_scope.\n\n"
     for nm, fl in (("cli", cli), ("bzl", bzl)):
         out += f"(* flag {fl['flag']}: user-supplied path -> {fl['user_val']}, temporary path -> {fl['tmp_val']} *)\n"
-        out += f"Definition {nm}_flow : flow := mkFlow\n  [ " + ";\n    ".join(fl["items"]) + " ]\n"
+        out += f"Definition {nm}_flow : flow := mkFlow\n  [" + "; ".join(fl["pre"]) + "]\n  [ " + ";\n    ".join(fl["items"]) + " ]\n"
         out += f"  {_coq_bool(fl['del_user'])} {_coq_bool(fl['del_tmp'])}.\n\n"
     lo, lo_incl, hi, hi_incl = pg["retry"]
     out += f"Definition page_retry_lo : N := {lo}%N.\nDefinition page_retry_lo_incl : bool := {_coq_bool(lo_incl)}.\n"
